@@ -101,6 +101,7 @@ func c13Doc(depth int) map[string]interface{} {
 
 //vp:setup S_c13
 func H_C13_json_shapes(s any) {
+	c13Budget()
 	m := s.(*meta.Module)
 	dst := newMemStore()
 	dst.quiet = true
@@ -139,6 +140,7 @@ func H_C13_json_shapes(s any) {
 //
 //vp:setup S_c13
 func H_C13_json_shapes_read(s any) {
+	c13Budget()
 	m := s.(*meta.Module)
 	doc := c13Doc(1)
 	var err error
@@ -165,4 +167,12 @@ func H_C13_json_shapes_read(s any) {
 	})
 	vpAssertK("C13-json-shape-panics", true, !p, "navigating / reading a mis-shaped document is an error, never a panic")
 	vpCover("reached")
+}
+
+// a hang is a violation of this property, not an inconclusive unwinding bound: loops are limited only by the
+// step budget (well above the longest request in these harnesses) and the frame-depth budget
+func c13Budget() {
+	vpUnwind(1 << 30)
+	vpSteps(3000000)
+	vpDepth(1500)
 }
